@@ -345,6 +345,16 @@ StepBoundOk(ops, len, nparts) == ops <= StepA * len + StepB * nparts + StepC
 WorkA == 4
 WorkB == 200
 WorkC == 1000
+(* Resource bound for one next() that only has to read a delimiter line and a header block
+   (the previous part was consumed): whatever the input is - floods of fields, of continuation
+   lines (SP / HTAB first), over-long lines, no terminating empty line - it awaits the stream at
+   most max_headers + HdrOpsSlack times (one await per line: <= 3 for the delimiter and epilogue,
+   max_headers + 1 header lines) and takes at most that many lines of max_field_size + 2 bytes,
+   three delimiter / epilogue lines of at most the stream's line limit, plus one delivered segment (a line without LF is taken piece by piece). *)
+HdrOpsSlack == 8
+HeaderOpsBound(mh) == mh + HdrOpsSlack
+\* cap = the stream's own line limit: delimiter / epilogue lines are read with it, not with max_field_size
+HeaderBytesBound(mh, mfs, cap, seg) == (mh + 3) * (mfs + 2) + 3 * cap + seg
 \* a reader that returned no data, did not reach the end of the part and did not raise
 MaxEmptyArbitrary == 2        \* on malformed input: at most two empty reads before the error
 
